@@ -893,7 +893,9 @@ Handler::ArgResult
       return processArg( detail::ArgumentKey( ai->mArgChar), ai, end);
 
    case detail::ArgListElement::Type::stringArg:
-      return processArg( detail::ArgumentKey( ai->mArgString), ai, end);
+      // a word behind two dashes is a long key (or the abbreviation of one),
+      // also if it consists of one character only
+      return processArg( detail::ArgumentKey( "--" + ai->mArgString), ai, end);
 
    case detail::ArgListElement::Type::control:
       if (ai->mArgChar == '(')
